@@ -212,3 +212,16 @@ Example C02_nonvacuous :
   list_of s "O" "usdt" = ["A"; "B"]%string /\
   inv_total_b s && inv_opshare_b s && inv_list_b s && inv_zero_pool_b s && inv_rate_b s = true.
 Proof. vm_compute. repeat split; reflexivity. Qed.
+
+(* NstBalance (UpdateNSTBalance) is covered by all ledger theorems above (it is an [op]); a concrete history in which a
+   client-chain balance decrease removes a staker's whole delegation in two pools (proportion capped at 1): the staker
+   leaves both staker lists, the share totals follow *)
+Example C02_nst_balance_example :
+  let l := [Deposit "A" "usdt" 1000; Delegate "A" "usdt" "O" 600; Delegate "A" "usdt" "Q" 300; Associate true "A" "O";
+            Deposit "B" "usdt" 50; Delegate "B" "usdt" "O" 50; NstBalance "A" "usdt" (-5000) 0 1000]%string in
+  let s := run ["O"; "Q"]%string st0 l in
+  wf_ids_b l = true /\
+  pool_of s "O" "usdt" = mkPool 50 (50 * P) 0 /\ pool_of s "Q" "usdt" = mkPool 0 0 0 /\
+  list_of s "O" "usdt" = ["B"]%string /\ list_of s "Q" "usdt" = [] /\ free_of s "A" "usdt" = 0 /\
+  inv_total_b s && inv_opshare_b s && inv_list_b s && inv_zero_pool_b s && inv_rate_b s = true.
+Proof. vm_compute. repeat split; reflexivity. Qed.
